@@ -10,7 +10,10 @@ Oracle (property text, implementation only, Fractions through verif_rational): e
 at least two blanks (or a tab) away from the amount; rows of J (date, aux date, state, code,
 payee, account, virtual, note, tags, exact amount, exact cost) equal the rows of `print J` re-read; the cost text of every printed
 posting denotes the cost as written (kind, (virtual) marking, exact number, commodity), and the price history (`prices`) is the same after the round trip; print(print J) is
-byte-identical to print J; `bal` of the re-read `equity J` equals `bal J` per account and commodity."""
+byte-identical to print J; `bal` of the re-read `equity J` equals `bal J` per account and commodity.
+Side streams (run_side, oracle only): the same relations, plus `bal --lots` of J = `bal --lots` of print J, on small journals of input
+classes Model/Print.v does not cover (fixated cost, apply tag, written lot after a computed one, time-commodity cost, decimal comma,
+format directive, equity of an account posted to as [A] and (A)); keys `<class>:<relation>`."""
 import re
 from fractions import Fraction as F
 import lib
@@ -21,11 +24,11 @@ META = dict(
     level='proof',
     technique='Coq proof about a model of print_xact\'s per-posting decisions, of the reader on such lines and of posts_as_equity (print shows what was written; re-read of an exactly balanced transaction is accepted with the same exact amounts and costs; the two-posting elision happens only when both postings must balance and is then sound; print never fails; posting marks bring the state back; per-unit and total costs re-read to the same total; printing twice is stable; equity reproduces per-account per-commodity sums) + differential correspondence against ledger + implementation-only round-trip oracle',
     level_text='Theorems in coq/Properties/Properties_C06.v are stated for Model/Print.v: `decide` (post_has_simple_amount, the count == 2 && index == 2 elision, POST_CALCULATED / ITEM_GENERATED suppression, the @ / @@ choice with the printed per-unit cost |given_cost / amount|, state marks, bare 0 for a display-zero amount, read_back = amount_t::print then amount_t::parse at display precision with zero trimming), `reread` (what parse_post makes of such a line) followed by Model/Xact.v `finalize`, and `equity_account`. The model is tied to the code by tokenizing ledger\'s print output into the same decision records and by comparing finalize of the original and of the re-read printed text (exact rationals via the verif_rational hook).',
-    level_note='Trusted: Coq kernel; the MPFR display rounding model Base/Round.v (validated by C04); extraction/driver/harness for the correspondence. Of the layout only the rule that separates account and amount is modelled (account column = max(36, longest printed name), amount right-justified in 12, gap topped up to two blanks; account_width / sep_blanks / posting_blanks, theorem print_separates_account_and_amount) and compared with the raw bytes of every printed posting line; note placement and blank lines are covered by the byte-identity oracle print(print J) == print J only. Amount text <-> amount value is C04\'s subject (AmountText.v); here an amount is printed as the value the reader gets back (read_back). Not modelled: amount expressions `(expr)`, --generated, automated/periodic transactions in print, metadata set programmatically (print.cc:172-183), value-expression annotations, commodity styles beyond prefix/suffix, the iteration order of accounts in equity. Known findings still listed: F8 (zero amount printed as bare 0), F29 (re-read rejected after the commodity precision grew), F30 (equity rounds an inferred amount to display precision), F31 (all-zero transaction not printed), F135 (the roundings of two printed balance assignments on one account add up and the second printed assertion is rejected). Repaired in /repo and now enforced as violations by the oracle: virtual-pair elision (bcb53b0, old F7), posting mark under a marked transaction (294def6, old F27), zero amount with a per-unit cost (c386080, old F28).',
+    level_note='Trusted: Coq kernel; the MPFR display rounding model Base/Round.v (validated by C04); extraction/driver/harness for the correspondence. Of the layout only the rule that separates account and amount is modelled (account column = max(36, longest printed name), amount right-justified in 12, gap topped up to two blanks; account_width / sep_blanks / posting_blanks, theorem print_separates_account_and_amount) and compared with the raw bytes of every printed posting line; note placement and blank lines are covered by the byte-identity oracle print(print J) == print J only. Amount text <-> amount value is C04\'s subject (AmountText.v); here an amount is printed as the value the reader gets back (read_back). Not modelled: amount expressions `(expr)`, --generated, automated/periodic transactions in print, metadata set programmatically (print.cc:172-183), value-expression annotations, commodity styles beyond prefix/suffix, the iteration order of accounts in equity. Side streams (oracle only, not modelled; run_side): a fixated cost `@ =P` / `@@ =T`, `apply tag`, a lot first created by a plain `@` purchase and later written out in a sale, a per-unit cost on a time amount (h/m), a decimal-comma commodity whose precision grows, a commodity/format directive with a finer written amount, equity for an account posted to as [A] and (A) - findings F192-F198. Known findings still listed: F8 (zero amount printed as bare 0), F29 (re-read rejected after the commodity precision grew), F30 (equity rounds an inferred amount to display precision), F31 (all-zero transaction not printed), F135 (the roundings of two printed balance assignments on one account add up and the second printed assertion is rejected). Repaired in /repo and now enforced as violations by the oracle: virtual-pair elision (bcb53b0, old F7), posting mark under a marked transaction (294def6, old F27), zero amount with a per-unit cost (c386080, old F28).',
     design_ref='DESIGN.md section 7 C06',
     assumptions=['the posting finalize infers for a single posting under a bucket directive is part of every comparison (rows with states, print decisions, layout)',
                  'journals accepted by ledger (a journal with any error is outside the quantifier; erroneous transactions are dropped by the generator)',
-                 'commodities $ EUR AAA BBB CCC without thousands marks or decimal comma (C04 covers styles)',
+                 'main stream (the one compared with the model): commodities $ EUR AAA BBB CCC without thousands marks or decimal comma (C04 covers styles), no directives other than bucket / apply account, plain @ / @@ costs; the side streams cover a decimal comma, a format directive, apply tag, fixated costs and time amounts by the oracle alone',
                  'payees start with x<N>; account, payee, code and note text avoid `|`, `[`, a leading `(`/`[` and two consecutive blanks before `;`',
                  'balance assignments only on dedicated accounts whose running total the generator tracks; the amount ledger computes for one is handed to the model (it teaches the pool nothing), the re-read printed journal is decided by the assertion journal loop of Model/Assert.v',
                  'equity: amounts written at or below the commodity precision (hypothesis of equity_reproduces_balances)'],
@@ -1235,6 +1238,140 @@ def run_equity(ctx, res, j, xs, text, path, rows, eq_cases):
                      {a: ';'.join(sorted(v)) for a, v in impl.items()}, text))
 
 
+# ------------------------------------------------------------------------------------ side streams (oracle only)
+# Input classes outside Model/Print.v (directives, the `=` of a fixated cost, a lot first created by a computation, scaled
+# time commodities, decimal comma, an account posted to as [A] and as (A)): small journals, implementation-only oracle
+# with the relations of the property text (rows of J = rows of print J re-read, print twice = print once, bal of the
+# re-read equity = bal J).  Every class has its own key prefix.
+def side_journals(rng):
+    A, B = rng.sample(['Assets:Broker:X', 'Assets:Bank', 'Assets:Cash', 'Expenses:Food', 'Income:Job'], 2)
+    n = rng.randrange(2, 60)
+    p = rng.randrange(101, 9999)
+    q = p + rng.randrange(1, 500)
+    d = '2020/%02d/%02d' % (rng.randrange(1, 7), rng.randrange(1, 29))
+    d2 = '2020/%02d/%02d' % (rng.randrange(7, 13), rng.randrange(1, 29))
+    money = lambda c: '$%d.%02d' % (c // 100, c % 100) if c >= 0 else '$-%d.%02d' % (-c // 100, -c % 100)
+    out = []
+    # the `=` of a fixated cost, per unit or total, the other leg elided or written
+    tot = rng.random() < 0.4
+    cost = ('@@ =%s' % money(p * n)) if tot else ('@ =%s' % money(p))
+    other = '' if rng.random() < 0.5 else '    ' + money(-p * n)
+    out.append(('fixated-cost', '%s x0\n    %s    %d AAA %s\n    %s%s\n' % (d, A, n, cost, B, other)))
+    # apply tag: every transaction and posting inside carries the tag
+    tag = rng.choice(['key: value', ':tag1:', 'key: applied text'])
+    out.append(('apply-tag', 'apply tag %s\n%s x0\n    %s    %s\n    %s\nend apply tag\n\n%s x1\n    %s    %s\n    %s\n' %
+                (tag, d, A, money(p), B, d2, A, money(q), B)))
+    # a lot created by a plain `@` purchase, later named in full by a sale
+    gain = (q - p) * n
+    out.append(('written-lot-after-computed-lot',
+                '%s x0\n    %s    %d AAA @ %s\n    %s\n\n%s x1\n    %s    -%d AAA {%s} [%s] @ %s\n    %s    %s\n    Income:Gains    %s\n' %
+                (d, A, n, money(p), B, d2, A, n, money(p), d, money(q), B, money(q * n), money(-gain))))
+    # a time commodity is stored in seconds: the per-unit cost becomes a quotient by 3600 (or 60)
+    hrs = rng.choice(['1.5h', '0.5h', '2.25h', '7h', '90m', '45m', '1h'])
+    out.append(('time-commodity-cost', '%s x0\n    %s    %s @ %s\n    %s\n' % (d, A, hrs, money(p), B)))
+    # decimal comma: the first amount of the commodity has fewer decimals than a later one
+    k = rng.randrange(1, 10)
+    out.append(('decimal-comma', '%s x0\n    %s    %d,%d EUR\n    %s\n\n%s x1\n    %s    %d,%03d EUR\n    %s\n' %
+                (d, A, k, rng.randrange(10), B, d2, A, rng.randrange(1, 10), rng.randrange(1, 1000), B)))
+    # a commodity directive that fixes the format, and an amount written with more decimals
+    out.append(('format-directive', 'commodity $\n    format $1,000.00\n\n%s x0\n    %s    $%d.%03d\n    %s\n' %
+                (d, A, k, rng.randrange(1, 1000) | 1, B)))
+    # one account posted to as [A] and as (A)
+    first, second = rng.choice([('[%s]', '(%s)'), ('(%s)', '[%s]')])
+    legs = {'[': '%s x%d\n    [V:A]    %s\n    [V:B]\n', '(': '%s x%d\n    (V:A)    %s\n'}
+    out.append(('equity-account-balanced-and-unbalanced-virtual',
+                legs[first[0]] % (d, 0, money(p)) + '\n' + legs[second[0]] % (d2, 1, money(q))))
+    return out
+
+
+def side_rows(out):
+    """reg rows -> list of field tuples; amounts as (symbol, annotation text, exact value)"""
+    def amt(r):
+        m = re.fullmatch(r'A:([0-9a-f]*)(?:~([0-9a-f]*))?:(-?\d+)/(\d+):\d+:[01]', r)
+        if not m:
+            return r
+        return (bytes.fromhex(m.group(1)).decode('utf-8', 'replace'),
+                re.sub(r'\s+', ' ', bytes.fromhex(m.group(2) or '').decode('utf-8', 'replace')).strip(),
+                F(int(m.group(3)), int(m.group(4))))
+    rows = []
+    for line in out.decode('utf-8', 'replace').split('\n'):
+        f = line.split('|')
+        if len(f) == 15:
+            rows.append(dict(payee=f[0], acct=f[1], virtual=f[2], date=f[3], aux=f[4], cleared=f[5], pending=f[6], code=f[7],
+                             note=f[8], amt=amt(f[9]), cost=amt(f[10]), tags=f[13], tagval=f[14]))
+    return rows
+
+
+def run_side(ctx, res, rng, n):
+    for j in range(n):
+        for cls, text in side_journals(rng):
+            res.count('side:' + cls)
+            res.evaluations += 1
+            path = ctx.path('C06_side.dat')
+            open(path, 'w').write(text)
+            case = dict(journal=text)
+            st, out, err = lib.run_ledger(['-f', path, 'reg', '--empty', '--no-rounding', '--lots', '--format', FMT] + NOW)
+            if st != 0 or err.strip():
+                res.count('side-not-accepted:' + cls)
+                continue
+            res.nontrivial.add(text)
+            if cls.startswith('equity-'):
+                s0, Q, e0 = lib.run_ledger(['-f', path, 'equity'] + NOW)
+                if s0 != 0:
+                    res.count('side-equity-refused:' + cls)      # equity declines (mixed real/virtual): nothing emitted, nothing to re-read
+                    continue
+                qpath = ctx.path('C06_side_Q.dat')
+                open(qpath, 'wb').write(Q)
+                s1, b1, e1 = lib.run_ledger(['-f', path, 'bal', '--flat', '--empty', '--format', BAL_FMT] + NOW)
+                s2, b2, e2 = lib.run_ledger(['-f', qpath, 'bal', '--flat', '--empty', '--format', BAL_FMT] + NOW)
+                case = dict(journal=text, printed=Q.decode('utf-8', 'replace'))
+                if s2 != 0 or e2.strip():
+                    res.violations.append(dict(key=cls + ':equity-reread-fails', desc='the equity transaction is not accepted: %s' % e2.decode('utf-8', 'replace')[-200:],
+                                               case=case, observed='error', required='accepted'))
+                    continue
+                t1 = {k: v for k, v in parse_bal(b1).items() if k[0] != 'Equity:Opening Balances'}
+                t2 = {k: v for k, v in parse_bal(b2).items() if k[0] != 'Equity:Opening Balances'}
+                if t1 != t2:
+                    diff = sorted(set(t1.items()) ^ set(t2.items()), key=str)[:6]
+                    res.violations.append(dict(key=cls + ':equity-balance-differs', desc='balances after re-reading equity differ: %s' % diff,
+                                               case=case, observed=str(diff), required='equal per account and commodity'))
+                continue
+            st1, P, err1 = lib.run_ledger(['-f', path, 'print'] + NOW)
+            Ptext = P.decode('utf-8', 'replace')
+            case = dict(journal=text, printed=Ptext)
+            if st1 != 0 or err1.strip():
+                res.violations.append(dict(key=cls + ':print-fails', desc='print fails: %s' % err1.decode('utf-8', 'replace')[-200:], case=case,
+                                           observed='status %s' % st1, required='the journal text'))
+                continue
+            ppath = ctx.path('C06_side_P.dat')
+            open(ppath, 'wb').write(P)
+            st2, out2, err2 = lib.run_ledger(['-f', ppath, 'reg', '--empty', '--no-rounding', '--lots', '--format', FMT] + NOW)
+            if st2 != 0 or err2.strip():
+                res.violations.append(dict(key=cls + ':reread-fails', desc='the printed text is not accepted: %s' % err2.decode('utf-8', 'replace')[-300:],
+                                           case=case, observed=err2.decode('utf-8', 'replace')[-300:], required='accepted'))
+                continue
+            r1, r2 = side_rows(out), side_rows(out2)
+            if len(r1) != len(r2):
+                res.violations.append(dict(key=cls + ':rows:count', desc='%d postings, re-read %d' % (len(r1), len(r2)), case=case,
+                                           observed=len(r2), required=len(r1)))
+                continue
+            bad = sorted(set(fld for a, b in zip(r1, r2) for fld in a if a[fld] != b[fld]))
+            for fld in bad:
+                a, b = [(a, b) for a, b in zip(r1, r2) if a[fld] != b[fld]][0]
+                res.violations.append(dict(key='%s:rows:%s' % (cls, fld), desc='%s %s: %s was %r, re-read %r' % (a['payee'], a['acct'], fld, a[fld], b[fld]),
+                                           case=case, observed=str(b[fld]), required=str(a[fld])))
+            # lot details (price, `=` fixation, date, tag) as `bal --lots` lists them: the hook shows no computed annotation
+            l1 = lib.run_ledger(['-f', path, 'bal', '--flat', '--lots', '--no-total'] + NOW)[1].decode('utf-8', 'replace')
+            l2 = lib.run_ledger(['-f', ppath, 'bal', '--flat', '--lots', '--no-total'] + NOW)[1].decode('utf-8', 'replace')
+            if l1 != l2:
+                res.violations.append(dict(key=cls + ':lot-details', desc='`bal --lots` differs after print and re-read', case=case,
+                                           observed=l2[:600], required=l1[:600]))
+            st3, P2, err3 = lib.run_ledger(['-f', ppath, 'print'] + NOW)
+            if st3 != 0 or P2 != P:
+                res.violations.append(dict(key=cls + ':print-not-idempotent', desc='print(print J) differs from print J', case=case,
+                                           observed=P2.decode('utf-8', 'replace')[:1000], required=Ptext[:1000]))
+
+
 def run(ctx, n_override=None):
     rng = ctx.rng
     res = lib.Result()
@@ -1244,7 +1381,7 @@ def run(ctx, n_override=None):
                 'costs at the half-unit boundary, lot sales with {price} [date] (tag), postings with both a lot price and a written cost (@ / @@ / (@) / (@@), equal to or different from lot price x quantity, sales and purchases), balance assignments/assertions, also on accounts whose running total carries a residue below the display precision (an elided leg of a per-unit cost with 3 or 4 decimals, followed by an assignment on that account), `0 X @ price`; in 30% of the journals a bucket directive (`A`, `bucket`, `account` + `default`; a third of them inside `apply account ROOT`) with single-posting transactions marked `*`/`!` on the header and/or the posting, real, [balanced] or (virtual), with or without a cost; '
                 'account names of 30..45 characters placed around the account column of print (column-3 .. column+0, the longest at the column) with amounts of 9..14 and more characters, so that every gap 0..3 between name and amount occurs; decorated with states on transactions and postings (also a posting mark that differs from the mark of its transaction), codes, auxiliary dates, notes, tags, key: value metadata and unusual '
                 'payee/account text; non-trivial = a transaction with at least one such feature in a journal whose printed text re-reads; '
-                'distinct by rendered transaction text')
+                'distinct by rendered transaction text; plus the side-stream journals (one or two transactions of each of seven directive / lot / style classes) that ledger accepts')
     n = n_override or ctx.scale(130, 600)
     journals = []
     for j in range(n):
@@ -1296,6 +1433,7 @@ def run(ctx, n_override=None):
                 continue
             if mod != impl:
                 res.disagreements.append(dict(name='C06/equity-postings', case=text, impl=impl, model=mod))
+    run_side(ctx, res, rng, n_override and 3 or ctx.scale(6, 40))
     return res
 
 
